@@ -470,6 +470,14 @@ Definition render_core (k : kvcore) : list N :=
   (render_ident (k_key k) ++ render_lay (k_l1 k) ++ render_mod (k_mod k) ++ render_val (k_val k)
    ++ render_comma (k_comma k))%list.
 
+Definition mod_choice : expr :=
+  EChoice (EStr [63]) (EChoice (EStr [100; 101; 98; 117; 103]) (EChoice (EStr [37])
+    (EChoice (EStr [100; 105; 115; 112; 108; 97; 121]) (EChoice (EStr [101; 114; 114])
+      (EChoice (EStr [115; 118; 97; 108]) (EStr [115; 101; 114; 100; 101])))))).
+
+(* the silent rule kvp_modifiers, as the translator inlines it at its uses *)
+Definition r_kvp_modifiers : expr := ESeq (EStr [58]) mod_choice.
+
 Definition kv_body : expr :=
   ESeq r_kvp_key (ESeq (EOpt r_kvp_modifiers) (ESeq (EOpt (ESeq (EStr [61]) r_kvp_value)) (EOpt (EStr [44])))).
 
@@ -523,14 +531,9 @@ Qed.
 
 Lemma modifiers_miss c t p : c <> 58 -> run Utab SK r_kvp_modifiers NonAtomic false (mkIn (c :: t) p) = Fail.
 Proof.
-  intros H. unfold r_kvp_modifiers. rewrite run_rule. cbn [inner_atomicity]. rewrite run_seq, run_str.
+  intros H. unfold r_kvp_modifiers. rewrite run_seq, run_str.
   cbn [Peg.rest strip_prefix]. destruct (N.eqb_spec 58 c); [congruence|reflexivity].
 Qed.
-
-Definition mod_choice : expr :=
-  EChoice (EStr [63]) (EChoice (EStr [100; 101; 98; 117; 103]) (EChoice (EStr [37])
-    (EChoice (EStr [100; 105; 115; 112; 108; 97; 121]) (EChoice (EStr [101; 114; 114])
-      (EChoice (EStr [115; 118; 97; 108]) (EStr [115; 101; 114; 100; 101])))))).
 
 Lemma mod_word_hit w t p :
   In w mod_words -> run Utab SK mod_choice NonAtomic false (mkIn (w ++ t)%list p) = Ok (mkIn t (p + blen w)) [].
@@ -550,7 +553,7 @@ Lemma modifiers_hit m rest p :
   run Utab SK r_kvp_modifiers NonAtomic false (mkIn (render_mod (Some m) ++ rest)%list p)
   = Ok (mkIn (render_lay (m_l2 m) ++ rest)%list (p + 1 + blen (render_lay (m_l1 m)) + blen (m_word m))) [].
 Proof.
-  intros Hl1 Hw. unfold r_kvp_modifiers. rewrite run_rule. cbn [inner_atomicity]. fold mod_choice.
+  intros Hl1 Hw. unfold r_kvp_modifiers.
   cbn [render_mod app]. rewrite run_seq, run_str. cbn [Peg.rest strip_prefix N.eqb Pos.eqb pos do_skip].
   rewrite <- !app_assoc.
   rewrite (skip_lay (m_l1 m) _ _ Hl1 (mod_word_code _ _ Hw)). rewrite (mod_word_hit _ _ _ Hw).
@@ -767,7 +770,9 @@ Lemma kvp_args_spec k1 more lsemi tail p :
   = Ok (mkIn tail (kvs_end k1 more lsemi p))
        [Node "kvp_args" p (kvs_end k1 more lsemi p) (kv_nodes (kvs_pairs k1 more p))].
 Proof.
-  intros [Hk1 Hmore]. unfold r_kvp_args. rewrite run_rule. cbn [inner_atomicity]. fold kv_body.
+  intros [Hk1 Hmore].
+  change r_kvp_args with (ERule "kvp_args" RNormal false (ESeq (ESeq kv_body (ERep kv_body)) (EStr [59]))).
+  rewrite run_rule. cbn [inner_atomicity].
   rewrite run_seq, run_seq. unfold render_kvs. rewrite (kv_core_spec k1 _ p Hk1). cbn [do_skip].
   set (p1 := p + blen (render_core k1)).
   assert (Hls : lay_ok lsemi (59 :: tail)).
@@ -1043,7 +1048,7 @@ Proof.
   rewrite run_seq, run_opt, (target_arg_miss _ _ Htw). cbn [do_skip]. rewrite (skip_none _ _ Hca).
   rewrite run_seq, run_opt.
   assert (Hkv : run Utab SK r_kvp_args NonAtomic false (mkIn (render_ident i ++ render_lay l ++ c :: t)%list p) = Fail).
-  { unfold r_kvp_args. rewrite run_rule. cbn [inner_atomicity]. fold kv_body. rewrite run_seq, run_seq.
+  { change r_kvp_args with (ERule "kvp_args" RNormal false (ESeq (ESeq kv_body (ERep kv_body)) (EStr [59]))). rewrite run_rule. cbn [inner_atomicity]. rewrite run_seq, run_seq.
     unfold kv_body at 1. rewrite run_seq.
     assert (Hst : cstops (c :: t)) by exact Hcont.
     rewrite (kvp_key_spec i l (c :: t) p Hi Hl Hc Hst). cbn [do_skip].
